@@ -3,7 +3,7 @@ import ast
 import z3
 
 from .values import *  # noqa
-from .engine import as_bool, State, Flow, is_numlike
+from .engine import as_bool, State, Flow, is_numlike, is_z3int
 
 
 def call(eng, node, st):
@@ -953,6 +953,12 @@ def str_join(eng, sep, arg, st):
     if getattr(eng, "concrete", False):
         from .crosscheck import to_py
         return eng.str_const(to_py(eng, st, sep).join(to_py(eng, st, x) for x in eng.concrete_items(arg, st)))
+    if isinstance(arg, VGen) and getattr(sep, "pystr", None) is not None:
+        n, i, c, e = eng.gen_lambda(arg, st)
+        if is_z3int(e) and z3.is_true(z3.simplify(c)):
+            # pieces that are opaque string values (f-strings): the joined text is an opaque value too, a function of separator, pieces and their number
+            f = z3.Function("STRJOIN", z3.IntSort(), z3.ArraySort(z3.IntSort(), z3.IntSort()), z3.IntSort(), z3.IntSort())
+            return f(eng.key_of(sep), z3.Lambda([i], to_z3(e)), z3.If(n > 0, n, 0))
     if not (z3.is_int_value(seplen) and seplen.as_long() == 0):
         raise Unsupported("join with non-empty separator")
     if isinstance(arg, VGen):
